@@ -361,6 +361,8 @@ type Batch struct {
 	BuildBad      map[string]string      // import path -> build error under default tags
 	Trace         []Event
 	TraceErr      string
+	CheckRes      *CmdResult
+	CheckOut      map[string]*PkgOutcome
 	Before, After Snapshot
 }
 
@@ -448,6 +450,12 @@ func (b *Batch) Precheck() {
 func (b *Batch) Gen(extraEnv ...string) {
 	b.GenRes = b.E.Wire(b.Root, extraEnv, "gen", "./...")
 	b.Out = GenOutcomes(b.GenRes, b.DirOf())
+}
+
+// Check runs `wire check ./...` at the module root.
+func (b *Batch) Check(extraEnv ...string) {
+	b.CheckRes = b.E.Wire(b.Root, extraEnv, "check", "./...")
+	b.CheckOut = GenOutcomes(b.CheckRes, b.DirOf())
 }
 
 // GenFile returns the generated file of program p's injector package ("" if absent).
